@@ -17,11 +17,14 @@ EXTENDS DNA
 \* letter that is a nucleotide matches itself; an ambiguity code matches the
 \* nucleotides of its IUPAC set.  (Deliberate deviation, as in the code: the
 \* pattern letter N also matches the data letter N; data letters outside
-\* A,C,G,T are otherwise matched only by themselves.)
+\* A,C,G,T are otherwise matched only by themselves.  A LOWER-case pattern letter
+\* is left as it is by the transcription, so "n" or "r" in a pattern match only
+\* the data letters N/n, R/r.)
 LetterMatches(p, x) ==
   LET u == Upper(x) IN
   IF p \in 1..4 THEN u = p
   ELSE IF p \in 5..15 THEN u \in IUPAC(p) \/ (p = 15 /\ u = 15)
+  ELSE IF p > 16 THEN u = p - 16     \* a lower-case pattern letter is not expanded (only upper-case codes are): it stands for itself
   ELSE u = p
 
 NoMatch == <<FALSE, 0, << >> >>
